@@ -1009,18 +1009,32 @@ def dispatch_tables(srcdir):
     """mode id -> enum variant (layer.rs parse_blend_mode), enum variant -> blend function (file.rs)"""
     lay = open(srcdir + "/layer.rs").read()
     m = re.search(r"fn parse_blend_mode\(id: u16\) -> Result<BlendMode> \{\s*match id \{(.*?)\n    \}\n\}", lay, re.S)
-    if not m:
-        raise Unsupported("parse_blend_mode not found in layer.rs")
     ids = {}
-    body = re.sub(r"//[^\n]*", "", m.group(1))
-    arms = re.findall(r"(\d+|_)\s*=>\s*(Ok\(BlendMode::(\w+)\)|Err\()", body)
-    if len(arms) != body.count("=>"):
-        raise Unsupported("parse_blend_mode has an arm of an unsupported form")
-    for pat, _, variant in arms:
-        if pat != "_":
-            if not variant:
-                raise Unsupported("parse_blend_mode: id %s is refused" % pat)
-            ids[int(pat)] = variant
+    if m:
+        body = re.sub(r"//[^\n]*", "", m.group(1))
+        arms = re.findall(r"(\d+|_)\s*=>\s*(Ok\(BlendMode::(\w+)\)|Err\()", body)
+        if len(arms) != body.count("=>"):
+            raise Unsupported("parse_blend_mode has an arm of an unsupported form")
+        for pat, _, variant in arms:
+            if pat != "_":
+                if not variant:
+                    raise Unsupported("parse_blend_mode: id %s is refused" % pat)
+                ids[int(pat)] = variant
+    else:
+        # the table form: `const T: [BlendMode; N] = [BlendMode::A, ...];` and a body `T.get(id as usize).copied().ok_or_else(..)`
+        nc = re.sub(r"//[^\n]*", "", lay)
+        m = re.search(r"fn parse_blend_mode\(id: u16\) -> Result<BlendMode> \{\s*(\w+)\s*\.get\(\s*(?:id as usize|usize::from\(id\))\s*\)\s*\.copied\(\)\s*"
+                      r"\.ok_or_else\(\|\|\s*\{?\s*AsepriteParseError::\w+\(format!\([^;]*?\)\)\s*\}?\s*\)\s*\n\}", nc, re.S)
+        if not m:
+            raise Unsupported("parse_blend_mode not found in layer.rs (neither the match nor the table form)")
+        t = re.search(r"const\s+%s\s*:\s*\[BlendMode;\s*(\d+)\]\s*=\s*\[(.*?)\];" % re.escape(m.group(1)), nc, re.S)
+        if not t:
+            raise Unsupported("table %s of parse_blend_mode not found" % m.group(1))
+        entries = [e.strip() for e in t.group(2).split(",") if e.strip()]
+        if len(entries) != int(t.group(1)) or not all(re.fullmatch(r"BlendMode::\w+", e) for e in entries):
+            raise Unsupported("table %s has an entry of an unsupported form" % m.group(1))
+        for k, e in enumerate(entries):
+            ids[k] = e.split("::")[1]
     # the BlendMode -> blend function table: a function `fn f(x: BlendMode) -> T { match x { BlendMode::V => <fn>, ... } }` in
     # any source file; an arm may name the function as `Box::new(blend::f)`, `blend::f`, `crate::blend::f` or plain `f`
     import glob
